@@ -10,8 +10,8 @@ import OV.Drivers.Loop
     `C01 live <func-sexp>`     → live-in set of the function body (analysis tie)
     `C01 export (withdefaults (defaults (NAME TEXT|_)*) <func-sexp>)` → `ok <wf> <norefs|refs> <graph-sexp>` | `err …`:
                                   the main graph `to_model_proto()` builds from the function body
-    `C01 fragment <func-sexp>` → `straight` | `if` | `loop` | `nested` | `attrval` (an attribute parameter read as a value: outside) |
-                                  `attrs` (an attribute parameter re-bound outside straight-line code: `hattr` fails) | `none`:
+    `C01 fragment <func-sexp>` → `straight` | `if` | `loop` | `nested` | `attrs` (an attribute parameter assigned, aliased `y = alpha` or used as a bare condition `if flag:`: `hattr` fails) |
+                                  `none_lit` / `none_brk` / `none_lit_brk` / `none_other` (outside every fragment, and why):
                                   the refinement theorem that covers it
     `C01 stable <func-sexp>`   → whether every liveness fixpoint of the model was reached within its fuel
                                   (hypothesis of `liveness_sound`) -/
@@ -50,6 +50,32 @@ def valStmt : Stmt → List Name
 def valBlock : List Stmt → List Name
   | [] => []
   | st :: ss => valStmt st ++ valBlock ss
+end
+
+mutual
+/-- a statement that assigns a bare (or negated) literal to a variable / contains `if b: break` -/
+def litAssignStmt : Stmt → Bool
+  | .assign _ e => !tensorRhs e
+  | .par _ es => es.any (fun e => !tensorRhs e)
+  | .ite _ t e => litAssignBlock t || litAssignBlock e
+  | .for_ _ _ _ body => litAssignBlock body
+  | .while_ _ body => litAssignBlock body
+  | _ => false
+def litAssignBlock : List Stmt → Bool
+  | [] => false
+  | st :: ss => litAssignStmt st || litAssignBlock ss
+end
+
+mutual
+def hasBrkStmt : Stmt → Bool
+  | .brk _ => true
+  | .ite _ t e => hasBrkBlock t || hasBrkBlock e
+  | .for_ _ _ _ body => hasBrkBlock body
+  | .while_ _ body => hasBrkBlock body
+  | _ => false
+def hasBrkBlock : List Stmt → Bool
+  | [] => false
+  | st :: ss => hasBrkStmt st || hasBrkBlock ss
 end
 
 def handle (args : List String) : String :=
@@ -98,18 +124,28 @@ def handle (args : List String) : String :=
       match decProgram e with
       | none => "bad-input"
       | some f =>
-        -- the name of an attribute parameter read in value position (not as `op.Foo(…, k=alpha)`): the plain-Python side of the model gives
-        -- it no value, so the theorems say nothing about the program (their evaluation hypothesis fails)
-        let attrval := (attrParams f.params).any (fun p => (valBlock f.body).contains p)
-        -- hypothesis `hattr` of stages 2-4: no attribute parameter is re-bound in the body
-        let rebound := (attrParams f.params).any (fun p => (targetsBlock f.body).contains p)
-        if attrval then "attrval"
-        else if straightLine f.body then "straight"
+        -- hypothesis `hattr` of stages 2-4: no attribute parameter is an assignment target or read as a bare right-hand
+        -- side / condition (`y = alpha`, `if flag:`); stage 1 only needs this of the attribute parameters that are read
+        -- as values at all (the others can be left without a Python value)
+        let rebound := (attrParams f.params).any (fun p => (targetsTop f.body).contains p)
+        let reboundRead := (attrParams f.params).any (fun p =>
+          (targetsBlock f.body).contains p && (valBlock f.body).contains p)
+        if straightLineT f.body then (if reboundRead then "attrs" else "straight")
         else if rebound then "attrs"
         else if ifLine f.body then "if"
         else if forLine f.body then "loop"
-        else if nestLine f.body then "nested"
-        else "none"
+        else if nestLine f.body then
+          -- stage 4 with variables holding Python scalars: the literal-assigned names must not be bound or read
+          -- bare by any other statement (hypotheses hPy / hLT with pyVars := litTargets), nor be attribute parameters
+          (if (litTargets f.body).any (fun x => (targetsTop f.body).contains x || (attrParams f.params).contains x)
+           then "none_lit" else "nested")
+        else
+          -- why not: a literal-valued variable beside control flow, a `break` the fragments do not allow, or else
+          match litAssignBlock f.body, hasBrkBlock f.body with
+          | true, true => "none_lit_brk"
+          | true, false => "none_lit"
+          | false, true => "none_brk"
+          | false, false => "none_other"
   | "stable" :: rest =>
     match parseSExp (" ".intercalate rest) with
     | none => "bad-input"
